@@ -45,7 +45,7 @@ theorem refines_BlockInfo : Refines (Src.BlockInfo false) blockInfo view_BlockIn
                     | subst h
                     | skip))
   simp (config := {decide := true}) only [uint_keep, boolC_keep, refines_ShardIdent.keep, forall_const,
-     envNat_cons, String.reduceBEq, Bool.false_eq_true, if_false, if_true, Int.toNat_natCast, bitInt_toNat, bit_eq_one,
+     envNat_cons, String.reduceBEq, Bool.false_eq_true, if_false, if_true, natOf_nat, bitInt_toNat, bit_eq_one,
      condK refines_GlobalVersion nonUnit_globalVersion, condRefK (r := Src.BlkMasterInfo) refines_BlkMasterInfo nonUnit_blkMasterInfo,
      condRefK (r := fun sp s => Src.BlkPrevInfo sp s (.int 0)) refines_BlkPrevInfo0 (nonUnit_blkPrevInfo 0),
      (refines_BlkPrevInfo_bit _).keep] at *
@@ -78,5 +78,11 @@ theorem refines_Account : RefinesP PV (SrcBlk.Account false) account view_Accoun
 
 theorem refines_ShardAccount : RefinesP PV (SrcBlk.ShardAccount false) shardAccount view_ShardAccount := by
   tx_refine [shardAccount, SrcBlk.ShardAccount, view_ShardAccount, refKP (r := SrcBlk.Account) refines_Account.toE]
+
+theorem refines_ValidatorSet : Refines (SrcBlk.ValidatorSet false) validatorSet view_ValidatorSet := by
+  apply RefinesP.toRefines
+  tx_refine [validatorSet, validatorSetAlts, SrcBlk.ValidatorSet, view_ValidatorSet, envNat_cons, uint_keepN,
+    hashmapK refines_ValidatorDescr 16, dictK refines_ValidatorDescr 16]
+  all_goals simp_all [vle_one_nat, vle_nat_isNat]
 
 end TonVerif.Tlb.Blk
